@@ -1,5 +1,7 @@
 (** Time/Ints.v — Rust's fixed-width integer types as far as datetime.rs uses them: range, wrapping
-    (`as` casts and release-build arithmetic) and range checks (debug-build arithmetic).  Definitions only. *)
+    (`as` casts and release-build arithmetic) and range checks (debug-build arithmetic).  Definitions only.
+    The bounds are written as literals (not [2 ^ n]) so that range checks cost nothing under vm_compute;
+    [IntsProofs] relates them to powers of two. *)
 From Coq Require Import ZArith Bool.
 Local Open Scope Z_scope.
 
@@ -9,17 +11,34 @@ Definition bits (ty : ity) : Z :=
   match ty with I8 | U8 => 8 | I32 | U32 => 32 | I64 | U64 | USIZE => 64 end.
 Definition signed (ty : ity) : bool :=
   match ty with I8 | I32 | I64 => true | _ => false end.
-Definition ty_min (ty : ity) : Z := if signed ty then - 2 ^ (bits ty - 1) else 0.
-Definition ty_max (ty : ity) : Z := if signed ty then 2 ^ (bits ty - 1) - 1 else 2 ^ bits ty - 1.
+
+(** 2 ^ bits *)
+Definition modulus (ty : ity) : Z :=
+  match ty with
+  | I8 | U8 => 256
+  | I32 | U32 => 4294967296
+  | I64 | U64 | USIZE => 18446744073709551616
+  end.
+
+Definition ty_min (ty : ity) : Z :=
+  match ty with
+  | I8 => -128 | I32 => -2147483648 | I64 => -9223372036854775808
+  | U8 | U32 | U64 | USIZE => 0
+  end.
+Definition ty_max (ty : ity) : Z :=
+  match ty with
+  | I8 => 127 | I32 => 2147483647 | I64 => 9223372036854775807
+  | U8 => 255 | U32 => 4294967295 | U64 | USIZE => 18446744073709551615
+  end.
 
 (** [fits ty x]: the mathematical integer [x] is a value of type [ty]. *)
 Definition fits (ty : ity) (x : Z) : bool := (ty_min ty <=? x) && (x <=? ty_max ty).
 
 (** Two's-complement wrapping into [ty]: what `x as ty` and release-build arithmetic produce. *)
 Definition wrap (ty : ity) (x : Z) : Z :=
-  let m := 2 ^ bits ty in
-  let r := x mod m in
-  if signed ty && (2 ^ (bits ty - 1) <=? r) then r - m else r.
+  if fits ty x then x                                    (* fast path; equal to the general case *)
+  else let r := x mod modulus ty in
+       if ty_max ty <? r then r - modulus ty else r.
 
-Definition I64_MIN : Z := - 2 ^ 63.
-Definition I64_MAX : Z := 2 ^ 63 - 1.
+Definition I64_MIN : Z := -9223372036854775808.
+Definition I64_MAX : Z := 9223372036854775807.
